@@ -69,7 +69,8 @@ fn c11_xor_reader_any_offset() {
 }
 
 // ---- C12: AuxPoW sections ---------------------------------------------------------------------------
-/// C12 (bounded: versions below / at / above the thresholds incl. versions with bit 8 clear; branch lengths 0..=33;
+/// C12 (bounded: versions below / at / above the thresholds incl. versions with bit 8 clear; branch lengths 0..=33, 252, 253,
+/// 300 and length prefixes in the 3- / 5- / 9-byte form;
 /// legacy and segwit parent coinbase; all 8 coins): the AuxPoW section is consumed exactly iff required
 #[test]
 fn c12_auxpow_sections() {
